@@ -2,6 +2,7 @@ import Tmv.Lemmas.BlockSync
 import Tmv.Lemmas.BlockSyncHandover
 import Tmv.Model.BlockSyncV2
 import Tmv.Lemmas.BlockSyncWF
+import Tmv.Lemmas.BlockSyncPend
 /-! # C13 — Block sync applies only the canonical chain, whatever peers send
 Property theorems about the model `Tmv.BlockSync` of blockchain/v0 (pool.go, reactor.go
 `poolRoutine`), `VerifyCommitLight`/`VerifyCommit`, `validateBlock` and the hand-over
@@ -213,6 +214,21 @@ theorem honest_pair_progress (n : Node) (first second : Block)
   | nil => exact absurd hq hne
   | cons a l => exact ⟨_, rfl, rfl, rfl, rfl⟩
 
+/-! ### resource counters -/
+
+/-- **numPending_is_waiting_requesters.** Over every history — any operations, any length — the
+pool's `numPending` (which gates `makeRequestersRoutine` at `maxPendingRequests`) equals the number
+of requesters that have no block yet; in particular it never exceeds the number of requesters, so
+the gate can only close when 600 requesters exist. A drifting counter would stop the creation of
+requesters for good. -/
+theorem numPending_is_waiting_requesters (st0 : St) (ops : List Op) :
+    ((Node.new st0).run sigOK ops).pool.numPending =
+        waiting ((Node.new st0).run sigOK ops).pool.requesters ∧
+      ((Node.new st0).run sigOK ops).pool.numPending ≤
+        ((Node.new st0).run sigOK ops).pool.requesters.length := by
+  have h := pend_run sigOK (Node.new st0) ops (by simp [PendOK, Node.new, Pool.new, waiting])
+  exact ⟨h, by rw [h]; exact waiting_le _⟩
+
 /-! ### reaching the tip -/
 
 theorem fairRun_is_run (w : Nat) (base tip : Int) (chain : Int → Block) :
@@ -261,7 +277,7 @@ theorem reaches_tip_with_one_honest (st0 : St) (h0 : st0.lastHeight = 0) (hih : 
   have hcan : Canon st0 chain st0.initialHeight 0 (Node.new st0) :=
     ⟨rfl, by simp [Node.new, Pool.new, hstart]⟩
   obtain ⟨k, hk, htip, _⟩ := fairRun_reaches sigOK st0 chain st0.initialHeight tip w base hc hb0 hbs
-    segs (Node.new st0) 0 hwf hcan (by simpa using hlen)
+    segs (Node.new st0) 0 hwf (by simp [PendOK, Node.new, Pool.new, waiting]) hcan (by simpa using hlen)
   exact ⟨k, htip, hk.1, hk.2, fairRun_is_run sigOK w base tip chain segs (Node.new st0)⟩
 
 /-! ### blockchain/v2 processor -/
